@@ -9,6 +9,8 @@ the library's own consistency check.
 """
 import itertools
 
+import os
+
 import numpy as np
 
 from mc import alphabet as A, refmodel as R
@@ -127,13 +129,16 @@ def model(cx, pairs):
     if cond > 1e5:
         raise AssertionError("harness: complete tester set too ill-conditioned for a meaningful comparison (cond %.3g): %s" % (
             cond, K.cfg_tag(cx.cfg)))
+    if os.environ.get("C09_CONDLOG"):
+        with open(os.environ["C09_CONDLOG"], "a") as fh:
+            fh.write("%.4g %s\n" % (cond, K.cfg_tag(cx.cfg)))
     return Aref, bref, cond
 
 
 def tol_for(cond):
-    """the estimator forms (A^T A)^-1 explicitly: rounding errors grow like eps * cond(A)^2; 1e-13 * cond^2 keeps a
-    margin of about 450 eps cond^2 (calibrated: worst observed 5 eps cond^2 over seeds 0..4), never below 1e-9"""
-    return 1e-9 * max(1.0, cond * cond / 1e4)
+    """the estimator forms (A^T A)^-1 explicitly: rounding errors grow like eps * cond(A)^2; 1e-14 * cond^2 keeps a
+    margin of about 45 eps cond^2 (calibrated: worst observed 5 eps cond^2 over seeds 0..9, see counters ratio_*), never below 1e-9"""
+    return 1e-9 * max(1.0, cond * cond / 1e5)
 
 
 def normal_eq_residual(M, b, v, f):
@@ -149,6 +154,11 @@ def check_normal(out, seen, cx, qt, Aref, bref, cond, v, f, where, what):
         K.fail_once(out, seen, "estimated_var:shape:%s" % tag, "%s %s: shape %r, %d variables" % (where, what, v.shape, Aref.shape[1]))
         return False
     res = normal_eq_residual(Aref, bref, v, f)
+    if cond * cond > 1e5:
+        for thr in (0.03, 0.1, 0.3):
+            if res > thr * tol_for(cond):
+                out.count("ratio_normal_eq_gt_%g" % thr)
+        out.count("normal_eq_ill_conditioned_checked")
     if not np.all(np.isfinite(v)):
         K.fail_once(out, seen, "estimated_var:not-finite:%s" % tag, "%s %s: estimate %r" % (where, what, v))
         return False
@@ -368,6 +378,10 @@ def ex_exact(out, seen, cx, params):
             if r is None:
                 continue
             v = np.asarray(r.estimated_var, float)
+            if v.shape == v_true.shape and cond * cond > 1e5:
+                for thr in (0.03, 0.1, 0.3):
+                    if np.abs(v - v_true).max() > thr * tol:
+                        out.count("ratio_exact_recovery_gt_%g" % thr)
             if v.shape != v_true.shape or np.abs(v - v_true).max() > tol:
                 K.fail_once(out, seen, "estimated_var:exact-data-not-recovered:%s:%s" % (ocls, tag), "%s true=%s: deviation %.3g (cond %.3g)" % (
                     where, oname, np.abs(v - v_true).max() if v.shape == v_true.shape else -1, cond))
